@@ -743,6 +743,80 @@ pub fn run_scenario(
                     }
                 }
             }
+            "nft_create" => {
+                // the node's wallet turns one of its outputs into an NFT (bound slip, payload, bound slip) held by `to`
+                let pre = r.state(&r.node);
+                let to = r.world.keys[st.to.as_deref().unwrap_or("k1")].public;
+                let node = &r.node;
+                let nk = node.key;
+                let g = scn.g;
+                wd.pet(&format!("scn {} step {} nft_create", scn_no, r.step_no));
+                let built = guarded(|| {
+                    rt.block_on(async {
+                        let latest = node.blockchain.read().await.get_latest_block_id();
+                        let mut w = node.wallet.write().await;
+                        // the largest usable slip of the wallet provides the identity of the NFT
+                        let pick = w
+                            .unspent_slips
+                            .iter()
+                            .filter_map(|k| w.slips.get(k))
+                            .filter(|s| s.block_id + g > latest + 2)
+                            .max_by_key(|s| s.amount)
+                            .map(|s| (s.amount, s.block_id, s.tx_ordinal, s.slip_index));
+                        match pick {
+                            None => Err("no usable slip".to_string()),
+                            Some((amt, bid, ord, idx)) => {
+                                let deposit = amt - amt / 4;
+                                w.create_bound_transaction(amt, bid, ord, idx as u64, deposit, vec![7, 7, 7], &to, None, latest, g, "harness".to_string())
+                                    .await
+                                    .map(|mut t| {
+                                        t.timestamp = T0 + 9_500_000 + latest;
+                                        t.generate(&nk.public, 0, 0);
+                                        t.sign(&nk.private);
+                                        t
+                                    })
+                                    .map_err(|e| format!("{:?}", e))
+                            }
+                        }
+                    })
+                });
+                wd.pause();
+                match built {
+                    Err(p) => {
+                        trace.emit(json!({"ev": "Nft", "scn": scn_no, "i": r.step_no, "res": format!("Panic:{}", p), "built": false, "pre": pre,
+                            "st": r.state(&r.node), "tag": st.tag}));
+                        break;
+                    }
+                    Ok(Err(e)) => {
+                        trace.emit(json!({"ev": "Skip", "scn": scn_no, "i": r.step_no, "why": format!("nft not built: {}", e)}));
+                    }
+                    Ok(Ok(tx)) => {
+                        let id = format!("nft{}_{}", scn_no, r.step_no);
+                        let d = TxDesc { id: id.clone(), signer: scn.node_key.clone(), ins: vec![], outs: vec![], path: vec![], edit: None, data: None,
+                                         fee: 0, tune: false };
+                        let sig = tx.signature;
+                        r.pool_descs.insert(sig, d.clone());
+                        let node = &r.node;
+                        let txc = tx.clone();
+                        let res = guarded(|| {
+                            rt.block_on(async {
+                                let bc = node.blockchain.read().await;
+                                let mut mp = node.mempool.write().await;
+                                mp.add_transaction_if_validates(txc, &bc).await;
+                                mp.transactions.contains_key(&sig)
+                            })
+                        });
+                        let resn = match res {
+                            Ok(true) => "Pooled".to_string(),
+                            Ok(false) => "Rejected".to_string(),
+                            Err(p) => format!("Panic:{}", p),
+                        };
+                        let desc = r.world.describe_tx(&tx, false, Some(&d), true);
+                        trace.emit(json!({"ev": "Nft", "scn": scn_no, "i": r.step_no, "res": resn, "built": true, "tx": desc, "pre": pre,
+                            "st": r.state(&r.node), "tag": st.tag}));
+                    }
+                }
+            }
             "restart" => {
                 // clean shutdown and start from the block files (C12)
                 let pre = r.state(&r.node);
